@@ -80,6 +80,28 @@ fn exec_transcript(file: &File, tree: &Tree, source: &str, globals: &BTreeMap<St
     t
 }
 
+/// Outcome and number of polls of one execution under a flag that fails from poll `fail_at` on.
+fn exec_with_flag(file: &File, tree: &Tree, source: &str, globals: &BTreeMap<String, MVal>, functions: &Functions, lazy: bool, fail_at: u64) -> (String, u64) {
+    let ti = TreeInfo::new(tree);
+    let vars: Variables = exec::make_globals(globals, &|_| None);
+    let flag = exec::CountingFlag::new(fail_at);
+    let r = catch(|| {
+        let config = ExecutionConfig::new(functions, &vars).lazy(lazy);
+        match file.execute(tree, source, &config, &flag) {
+            Ok(g) => match observe_graph(&g, &ti) {
+                Ok(og) => format!("GRAPH {}", og.to_json()),
+                Err(e) => format!("UNREADABLE {}", e),
+            },
+            Err(e) => format!("ERROR {}", e),
+        }
+    });
+    let t = match r {
+        Ok(t) => t,
+        Err(p) => format!("PANIC {} {}", p.location, p.message),
+    };
+    (t, flag.count())
+}
+
 /// programs where "which error is reported" has room to vary
 fn special_text(rng: &mut Rng) -> (String, &'static str) {
     match rng.below(7) {
@@ -320,6 +342,34 @@ impl Prop for C12 {
                 }
             }
             out.feat("short_lived_trees_sequence");
+            // a caller-supplied cancellation flag sees the same polls, and the execution gives the
+            // same outcome, every time: never-firing flag first (number of polls P), then flags
+            // that fire at a few polls k <= P, each repeated and interleaved with other runs
+            {
+                let (t0, p0) = exec_with_flag(&file, &trees[0], &c.sources[0], &c.globals, &functions, lazy, u64::MAX);
+                out.eval();
+                let mut ks: Vec<u64> = vec![u64::MAX];
+                if p0 > 0 {
+                    ks.extend([1, (p0 + 1) / 2, p0]);
+                }
+                for k in ks {
+                    let (first, pf) = if k == u64::MAX { (t0.clone(), p0) } else { exec_with_flag(&file, &trees[0], &c.sources[0], &c.globals, &functions, lazy, k) };
+                    for rep in 0..3 {
+                        if rep == 1 {
+                            let _ = exec_with_flag(&file, &trees[1], &c.sources[1], &c.globals, &functions, !lazy, u64::MAX);
+                        }
+                        let (again, pa) = exec_with_flag(&file, &trees[0], &c.sources[0], &c.globals, &functions, lazy, k);
+                        out.eval();
+                        if again != first || pa != pf {
+                            let mut cc = cj();
+                            cc["flag_fails_from_poll"] = json!(if k == u64::MAX { -1i64 } else { k as i64 });
+                            out.violation(&format!("C12:polls-or-outcome-differ:{}", mode), &format!("repetition {} under an identical cancellation flag: {} polls and {:?}, before {} polls and {:?}", rep + 1, pa, crate::util::trunc(&again, 200), pf, crate::util::trunc(&first, 200)), cc);
+                            return;
+                        }
+                    }
+                }
+                out.feat("identical_cancellation_flag_repetitions");
+            }
             // the caller's globals vary between executions of the one loaded file (a defaulted
             // global supplied / not supplied, a global dropped): every execution must equal an
             // isolated run with the same globals
